@@ -2,10 +2,12 @@
 """import_seed.py <worktree> <seed-id> <property> <caught_by> "<needs>" : store a confirmed seeded change under /verif/seeded/<seed-id>/"""
 import sys, os, shutil, json, subprocess
 wt, sid, prop, caught, needs = sys.argv[1:6]
+first = sys.argv[6] if len(sys.argv) > 6 else ""
 dst = os.path.join('/verif/seeded', sid)
 os.makedirs(dst, exist_ok=True)
+src = os.path.join(wt, '_out') if os.path.isdir(os.path.join(wt, '_out')) else wt
 for f in ('patch.diff', 'seeded_demo.rs', 'meta.txt'):
-    shutil.copy(os.path.join(wt, '_out', f), os.path.join(dst, f))
+    shutil.copy(os.path.join(src, f), os.path.join(dst, f))
 files = subprocess.run(['grep', '-E', r'^\+\+\+ ', os.path.join(dst, 'patch.diff')], capture_output=True, text=True).stdout.split('\n')
 meta = {
   "seed_id": sid,
@@ -20,5 +22,7 @@ meta = {
   "caught_by": caught.split(','),
   "detected": True if caught else False,
 }
+if first:
+    meta["first_result"] = first
 json.dump(meta, open(os.path.join(dst, 'meta.json'), 'w'), indent=1)
 print('stored', dst)
